@@ -59,7 +59,7 @@ func truncationTracks(c *Ctx) []engine.Track {
 				return false, 0
 			}
 			s := cd.EdgeOrd(true)
-			if s == engine.LT|engine.GT {
+			if isNE(s) {
 				return true, engine.True
 			}
 			if s == engine.EQ {
